@@ -29,6 +29,19 @@ theorem stop_reported (c : Nat) :
 theorem finish_ok_iff_acknowledged (s : QStopped) : finish s = .ok () ↔ s = .finished := by
   cases s <;> simp [finish, stopped]
 
+/-- **finish never reports success before the acknowledgement**: whatever quinn's synchronous
+`finish()` answered (in particular on a repeated call after a cancelled one), the call is
+pending while `stopped()` is, and succeeds iff everything was acknowledged. -/
+theorem finish_call_waits (syncErr : Bool) :
+    finishCall syncErr none = none ∧
+    ∀ s, finishCall syncErr (some s) = some (.ok ()) ↔ s = .finished := by
+  have hs : Generated.FINISH_AWAITS_STOPPED = true := by decide
+  refine ⟨by simp [finishCall, hs], fun s => ?_⟩
+  simp only [finishCall, hs, Bool.not_true, Bool.false_and, Bool.false_eq_true, if_false, Option.map_some,
+    Option.some.injEq]
+  exact finish_ok_iff_acknowledged s
+
+
 /-- no arm conflates two outcomes: different quinn results give different API results, except
 the two "connection is gone" causes that are deliberately reported alike -/
 theorem read_mapping_injective_on_codes (a b : Nat) (h : ofReadError (.reset a) = ofReadError (.reset b)) : a = b := by
